@@ -35,11 +35,13 @@ type sysCfg struct {
 	stopSrc   string // "Engine.Stop", "Stop", "OnTraffic", "OnTick", "OnClose"
 	conns     int
 	flood     bool
+	multi     bool // Rotate with several listeners (tcp + unix + tcp)
+	v6zone    bool // listen on [::1%<loopback interface>]: zoned IPv6 addresses on both sides
 }
 
 func (c *sysCfg) String() string {
-	return fmt.Sprintf("%s net=%s et=%v chunk=%d loops=%d reuseport=%v lb=%d ticker=%v rcap=%d wcap=%d sndbuf=%d stop=%s conns=%d",
-		c.name, c.network, c.et, c.chunk, c.loops, c.reuseport, c.lb, c.ticker, c.readCap, c.writeCap, c.sndbuf, c.stopSrc, c.conns)
+	return fmt.Sprintf("%s net=%s et=%v chunk=%d loops=%d reuseport=%v lb=%d ticker=%v rcap=%d wcap=%d sndbuf=%d stop=%s conns=%d multi=%v",
+		c.name, c.network, c.et, c.chunk, c.loops, c.reuseport, c.lb, c.ticker, c.readCap, c.writeCap, c.sndbuf, c.stopSrc, c.conns, c.multi)
 }
 
 func contextBG() context.Context { return context.Background() }
@@ -109,8 +111,8 @@ func randSpec(id int, rng *vsup.Rng, cfg *sysCfg) *peerSpec {
 	sp.lockstep = rng.Intn(3) == 0 && len(sp.segs) < 200
 	sp.shut = []string{"fin", "close", "fin", "close", "rst", "server", "fin"}[rng.Intn(7)]
 	sp.peerRead = []string{"normal", "normal", "slow", "stall"}[rng.Intn(4)]
-	sp.consume = []string{"all", "dribble", "mixed", "mixed", "lazy", "peekonly"}[rng.Intn(6)]
-	if sp.consume == "dribble" && sp.total > 3000 {
+	sp.consume = []string{"all", "dribble", "mixed", "mixed", "lazy", "peekonly", "record"}[rng.Intn(7)]
+	if (sp.consume == "dribble" || sp.consume == "record") && sp.total > 3000 {
 		sp.consume = "mixed"
 	}
 	sp.reply = []string{"none", "frames", "frames", "big"}[rng.Intn(4)]
@@ -155,8 +157,15 @@ func runPeer(rec *recorder, h *vhandler, sp *peerSpec, addr string, scratch stri
 		return
 	}
 	sp.laddr = c.LocalAddr().String()
-	rec.emit("PeerDial", "c", sp.id, "laddr", sp.laddr, "raddr", c.RemoteAddr().String(), "net", sp.network)
+	// (the listener's address as it was given to the engine: Go's own RemoteAddr drops the zone of "[::1%lo]")
+	rec.emit("PeerDial", "c", sp.id, "laddr", sp.laddr, "raddr", addr, "net", sp.network)
 	h.peers.Store(sp.laddr, sp)
+	peerSession(rec, h, sp, c, rep)
+}
+
+// peerSession plays the peer's side of an established stream connection (dialled by the peer in the server
+// scenarios, accepted by the peer in the client scenarios).
+func peerSession(rec *recorder, h *vhandler, sp *peerSpec, c net.Conn, rep *vsup.Report) {
 	rng := vsup.NewRng(sp.seed ^ 0x5bd1e995)
 	if tc, ok := c.(*net.TCPConn); ok {
 		_ = tc.SetNoDelay(true)
@@ -458,7 +467,20 @@ func runServerScenario(t *testing.T, rec *recorder, cfg *sysCfg, seed uint64, sc
 		addr = "unix://" + dial
 	} else {
 		dial = fmt.Sprintf("127.0.0.1:%d", freePort())
+		if cfg.v6zone {
+			dial = fmt.Sprintf("[::1%%%s]:%d", loopbackName(), freePort())
+		}
 		addr = "tcp://" + dial
+	}
+	// Rotate: two more listeners of the other / the same kind; every peer dials one of them
+	type target struct{ network, dial string }
+	targets := []target{{cfg.network, dial}}
+	addrs := []string{addr}
+	if cfg.multi {
+		u := filepath.Join(scratch, fmt.Sprintf("srvB%d.sock", seed%100000))
+		tp := fmt.Sprintf("127.0.0.1:%d", freePort())
+		targets = append(targets, target{"unix", u}, target{"tcp", tp})
+		addrs = append(addrs, "unix://"+u, "tcp://"+tp)
 	}
 	opts := []Option{WithNumEventLoop(cfg.loops), WithReusePort(cfg.reuseport), WithLoadBalancing(cfg.lb), WithTicker(cfg.ticker),
 		WithReadBufferCap(cfg.readCap), WithWriteBufferCap(cfg.writeCap), WithLogger(nullLogger{}), WithLockOSThread(false)}
@@ -480,7 +502,12 @@ func runServerScenario(t *testing.T, rec *recorder, cfg *sysCfg, seed uint64, sc
 	}
 	runErr := make(chan error, 1)
 	go func() {
-		err := Run(h, addr, opts...)
+		var err error
+		if cfg.multi {
+			err = Rotate(h, addrs, opts...)
+		} else {
+			err = Run(h, addr, opts...)
+		}
 		rec.emit("RunRet", "err", errClass(err))
 		runErr <- err
 	}()
@@ -496,7 +523,9 @@ func runServerScenario(t *testing.T, rec *recorder, cfg *sysCfg, seed uint64, sc
 	specs := make([]*peerSpec, cfg.conns)
 	for i := range specs {
 		specs[i] = randSpec(i+1, rng, cfg)
-		if cfg.network == "unix" && specs[i].shut == "rst" {
+		tg := targets[i%len(targets)]
+		specs[i].network = tg.network
+		if tg.network == "unix" && specs[i].shut == "rst" {
 			specs[i].shut = "close"
 		}
 		if i == 0 && cfg.flood {
@@ -507,11 +536,30 @@ func runServerScenario(t *testing.T, rec *recorder, cfg *sysCfg, seed uint64, sc
 			sp.closeAt, sp.openOut, sp.wakes = -1, -1, 0
 			sp.asyncW, sp.asyncN, sp.flood = 1+rng.Intn(2), 1100+rng.Intn(300), true
 		}
+		if cfg.v6zone && i >= len(specs)/2 {
+			// second wave, after the first one has gone: connections reading small fixed-size records that arrive
+			// byte by byte, i.e. served from the pooled scratch memory that released connections gave back
+			// (among it the memory of their addresses' zone names)
+			if i == len(specs)/2 {
+				wg.Wait()
+			}
+			sp := specs[i]
+			sp.total = 40 + rng.Intn(200)
+			sp.segs = make([]int, sp.total)
+			for j := range sp.segs {
+				sp.segs[j] = 1
+			}
+			sp.lockstep, sp.consume, sp.recSize = true, "record", []int{len(loopbackName()), 2, 3, 4}[rng.Intn(4)]
+			sp.closeAt, sp.asyncW, sp.wakes = -1, 0, 0
+			if sp.shut == "server" {
+				sp.shut = "fin"
+			}
+		}
 		wg.Add(1)
-		go func(sp *peerSpec) {
+		go func(sp *peerSpec, to string) {
 			defer wg.Done()
-			runPeer(rec, h, sp, dial, scratch, rep)
-		}(specs[i])
+			runPeer(rec, h, sp, to, scratch, rep)
+		}(specs[i], tg.dial)
 		if rng.Intn(3) == 0 {
 			time.Sleep(time.Duration(rng.Intn(2000)) * time.Microsecond)
 		}
@@ -564,9 +612,11 @@ func runServerScenario(t *testing.T, rec *recorder, cfg *sysCfg, seed uint64, sc
 		leaked, what = leakedSince(baseFds)
 	}
 	sockfiles := 0
-	if cfg.network == "unix" {
-		if _, err := os.Stat(dial); err == nil {
-			sockfiles = 1
+	for _, tg := range targets {
+		if tg.network == "unix" {
+			if _, err := os.Stat(tg.dial); err == nil {
+				sockfiles++
+			}
 		}
 	}
 	rec.emit("ProcFd", "leaked", leaked, "what", fmt.Sprint(what), "sockfiles", sockfiles)
@@ -795,12 +845,38 @@ func sysConfigs(rng *vsup.Rng, thorough bool) []*sysCfg {
 			if cfg.stopSrc == "OnTick" {
 				cfg.ticker = true
 			}
+			cfg.multi = rng.Intn(3) == 0
+			if cfg.multi {
+				cfg.reuseport = false // (a unix listener among them: the engine turns SO_REUSEPORT off)
+			}
 			cfg.name = fmt.Sprintf("%s-%s", network, mode)
 			cfg.flood = (network == "tcp" && mode == "ET") || (network == "unix" && mode == "LT") || rng.Intn(4) == 0
 			out = append(out, cfg)
 		}
 	}
+	if haveV6Loopback() {
+		cfg := &sysCfg{network: "tcp", v6zone: true, loops: 1 + rng.Intn(3), readCap: 1024, writeCap: 1024, lb: LoadBalancing(rng.Intn(3)),
+			conns: 8 + rng.Intn(4), stopSrc: "Engine.Stop", et: rng.Intn(2) == 0, reuseport: rng.Intn(2) == 0}
+		cfg.name = "tcp6zone-" + map[bool]string{false: "LT", true: "ET"}[cfg.et]
+		out = append(out, cfg)
+	}
 	return out
+}
+
+func loopbackName() string {
+	if ifi, err := net.InterfaceByIndex(1); err == nil {
+		return ifi.Name
+	}
+	return "lo"
+}
+
+func haveV6Loopback() bool {
+	ln, err := net.Listen("tcp6", "[::1]:0")
+	if err != nil {
+		return false
+	}
+	_ = ln.Close()
+	return true
 }
 
 // TestVerifRace (C05, adjunct oracle): the same scenarios compiled with the race detector and with the recorder
